@@ -251,3 +251,14 @@ package utils
 //@   assumed
 //@   modifies b.chunks, b.offset, allbytes
 //@ end
+
+// ---- line splitting of bulk bodies (C15): the two results partition the input
+// around the first newline.
+//@ func ReadLine
+//@   props C15
+//@   ensures [no-newline] implies(forall(k, 0, len(buf), buf[k] != 10), samebase(result0, buf) && len(result0) == len(buf) && len(result1) == 0)
+//@   ensures [line-has-no-newline] forall(k, 0, len(result0), result0[k] != 10)
+//@   ensures [split] implies(len(result0) < len(buf), samebase(result0, buf) && buf[len(result0)] == 10 && len(result1) == len(buf) - len(result0) - 1)
+//@   pure
+//@   safe
+//@ end
